@@ -376,8 +376,11 @@ def surf(draw, prof, n, eq_sol, pp_names, kin_rates, balanced):
         model = draw(st.sampled_from(["no_edl", "ddl", "ddl", "ccm", "donnan", "donnan", "diffuse"] if balanced else
                                      ["no_edl", "ddl", "ddl", "ccm", "donnan", "donnan"]))
         rel = draw(st.sampled_from(["", "", "", "phase", "kin"]))
-        if rel == "kin" and not kin_rates:
+        if rel == "kin":
+            # known finding: update_kin_surface (tidy.cpp) zeroes the charge balance of a surface tied to a kinetic
+            # reactant whenever SURFACE*/KINETICS* keywords are read -> the restored surface loses its charge
             rel = ""
+            labels.append("excluded_surface_related_to_kinetics")
         if model == "diffuse":
             equil, rel = True, ""
         w = draw(cg.logu(1e-5, 5e-3, 3))
@@ -743,8 +746,8 @@ def case_strategy(draw, tier="quick"):
     col("tc", "lin", "TC")
     col("pressure", "gasp", "PRESSURE")
     col("water", "mol", 'TOT("water")')
-    col("cb", "cb", "CHARGE_BALANCE")
-    col("alk", "mol", "ALK")
+    col("cb", "diff", "CHARGE_BALANCE")
+    col("alk", "diff", "ALK")
     col("rho", "lin", "RHO")
     col("sc", "lin", "SC")
     col("visc", "lin", "VISCOS")
@@ -761,7 +764,6 @@ def case_strategy(draw, tier="quick"):
         col("g_" + g, "mol", 'GAS("%s")' % g)
     if gas_names:
         col("gas_p", "gasp", "GAS_P")
-        col("gas_vm", "lin", "GAS_VM")
     for r in kin_rates:
         col("k_" + r, "mol", 'KIN("%s")' % r)
     for s in ss_comps:
